@@ -4,7 +4,7 @@ from props import heapcheck
 
 GEN_MODULES = ["Vm"]
 ASSUMPTIONS = ["the Lean pass-engine model (Model/Pass.lean + Model/Action.lean) is the reference semantics; theorems relate it to the declarative reading (pattern prefix matching, precedence order, first passing constraint)",
-               "scope of the model: left-to-right fonts and requests, uniform pre-context per pass, no pass constraint, no collision or bidi pass, positions not computed",
+               "scope of the model: fonts and requests of either direction, passes running against the font's direction (reverseSlots), uniform pre-context per pass, design-unit positions; no pass constraint, no collision or bidi pass, no mirroring",
                "fsm_matches_patterns needs TrieOK(tables, patterns): evaluated by the driver for every font it runs (counted in the evidence as tables-encode-patterns)"]
 TRUSTED = ["hand-written model GrVerif/Model/{Pass,Action,Seg,Assoc}.lean tied by whole-pipeline correspondence", "tools/fontsynth.py (emits the binary font and the model's description of it from the same data)"]
 
